@@ -37,7 +37,7 @@ ProbeStage(e, need) ==
 Stage(e) ==
   LET m == e.msg  rrs == RRsOf(m) IN
   IF ~Packable(m) THEN (IF e.packed THEN "accepts-unpackable" ELSE "ok")
-  ELSE IF ~e.packed THEN (IF e.packerr = "ErrBuf" THEN "pack-errbuf" ELSE "pack-error")
+  ELSE IF ~e.packed THEN (IF e.packerr = "ErrBuf" THEN "pack-errbuf" ELSE IF MayRefuse(m) THEN "ok" ELSE "pack-error")
   ELSE IF ~e.compress /\ e.packlen # LenMsg(m) THEN "uncompressed-length"
   ELSE IF e.compress /\ e.packlen > LenMsg(m) THEN "compressed-longer"
   ELSE IF e.len < e.packlen THEN "underestimate"
